@@ -3,6 +3,8 @@ CONSTANTS
   NV = 2
   StabV = {}
   HasHf = FALSE
+  Cmds = {}
+  Rewrites = FALSE
   NP = 1
   UseQueue = TRUE
   SkipQueue = FALSE
